@@ -2459,7 +2459,7 @@ func (d *Data) ServeHTTP(uuid dvid.UUID, ctx *datastore.VersionedCtx, w http.Res
 					"Timestamp": time.Now().String(),
 				}
 				jsonmsg, _ := json.Marshal(msginfo)
-				if err = d.PublishKafkaMsg(jsonmsg); err != nil {
+				if err := d.PublishKafkaMsg(jsonmsg); err != nil {
 					dvid.Errorf("Error on sending neuronjson POST op to kafka: %v\n", err)
 				}
 			}()
